@@ -895,7 +895,7 @@ class Project:
 
     def check_run_once(self, flagspec, final):
         """flagspec: {'again': bool, 'at_least': symbol|None, 'this_commit': bool}"""
-        from implrun import run_cond, strip_ansi
+        from implrun import run_cond, strip_ansi, cached_wording as implrun_cached_wording
 
         where = self.check_where()
         dag, h, mode, anc, dist, is_anc = self.world()
@@ -914,7 +914,8 @@ class Project:
         after = self.rows()
         new = [x for x in after if x not in before]
         executed = {t: any(x[0] == "//:" + t for x in new) for t in TASKS}
-        cached_line = {t: ("Using cached results for //:%s." % t) in out for t in TASKS}
+        cw = implrun_cached_wording()
+        cached_line = {t: (cw[0] + "//:" + t + cw[1]) in out for t in TASKS}
         self.stats["run"] = self.stats.get("run", 0) + 1
         rep = self.replay_obj()
         observation = {"argv": argv, "code": r.code, "executed": executed, "cached_line": cached_line, "output_tail": out[-400:]}
